@@ -182,10 +182,24 @@ def parse_type(q):
         return ('ptr', inner), is_ref, is_const
     if q0 in BUILTIN:
         return BUILTIN[q0], is_ref, is_const
+    m = re.match(r'^Eigen::(Vector|RowVector|Matrix)([234])([dfi])$', q0)
+    if m:
+        st = {'d': ('float', 64), 'f': ('float', 32), 'i': ('int', 32, True)}[m.group(3)]
+        k = int(m.group(2))
+        shape = {'Vector': (k, 1), 'RowVector': (1, k), 'Matrix': (k, k)}[m.group(1)]
+        return ('eig', st, shape[0], shape[1]), is_ref, is_const
     if q0 in TYPEDEFS:
         t, r2, c2 = parse_type(TYPEDEFS[q0])
         return t, is_ref or r2, is_const or c2
     name, targs = template_parts(q0)
+    if targs and len(targs) == 1 and (name in TYPEDEFS or ('romea::core::' + name) in TYPEDEFS) and not name.startswith('std::'):
+        # alias template of the repository (using X = Eigen::Matrix<Scalar, N, 1>): substitute its single parameter
+        body = TYPEDEFS.get(name) or TYPEDEFS['romea::core::' + name]
+        body = re.sub(r'\b(Scalar|T)\b', targs[0], body)
+        if body.startswith('Matrix<'):
+            body = 'Eigen::' + body
+        t, r2, c2 = parse_type(body)
+        return t, is_ref or r2, is_const or c2
     if name in ('Eigen::Matrix', 'Eigen::Array') and targs:
         st, _, _ = parse_type(targs[0])
         try:
@@ -301,6 +315,8 @@ def type_tag(t):
         return 'i64'
     if t[0] == 'pair':
         return 'pair_%s_%s' % (type_tag(t[1]), type_tag(t[2]))
+    if t[0] == 'vector':
+        return 'vec_' + type_tag(t[1])
     raise ExtractError('no tag for %r' % (t,))
 
 
@@ -362,7 +378,7 @@ class Program:
         self.units.append(u)
         for parent, n in u.funcs:
             has_body = any(isinstance(c, dict) and c.get('kind') == 'CompoundStmt' for c in n.get('inner', []))
-            if not has_body:
+            if not has_body or n.get('_pattern'):
                 continue
             ids = [n['id']]
             if 'previousDecl' in n:
@@ -376,7 +392,7 @@ class Program:
         cands = {}
         for u in self.units:
             for p, n in u.funcs:
-                if n.get('name') != name or p != parent:
+                if n.get('name') != name or p != parent or n.get('_pattern'):
                     continue
                 if not any(isinstance(c, dict) and c.get('kind') == 'CompoundStmt' for c in n.get('inner', [])):
                     continue
@@ -618,6 +634,8 @@ def collect_decls(objs):
             TYPEDEFS[q] = tt.get('desugaredQualType') or tt.get('qualType')
             TYPEDEFS[n.get('name', '')] = TYPEDEFS[q]
         if k in ('CXXMethodDecl', 'FunctionDecl', 'CXXConstructorDecl', 'CXXDestructorDecl'):
+            if ctx and ctx[-1][0] == 'FunctionTemplateDecl' and not any(isinstance(c, dict) and c.get('kind') == 'TemplateArgument' for c in n.get('inner', [])):
+                n['_pattern'] = True      # the uninstantiated template pattern
             found.append((ctx, n))
             return
         nctx = ctx
@@ -754,13 +772,11 @@ class AstUnit:
                                 t, _, _ = parse_type(node_type(x))
                                 inn = [c for c in x.get('inner', []) if isinstance(c, dict)]
                                 if inn:
-                                    lit = inn[0]
-                                    while lit.get('kind') in ('ImplicitCastExpr', 'ConstantExpr', 'ParenExpr') and lit.get('inner'):
-                                        lit = lit['inner'][0]
-                                    if lit.get('kind') == 'IntegerLiteral' and t[0] == 'int':
-                                        self._gc[name] = ('const', t, int(lit['value']))
-                                    elif lit.get('kind') == 'FloatingLiteral' and t[0] == 'float':
-                                        self._gc[name] = ('const', t, lit['value'])
+                                    v = const_fold_node(inn[0])
+                                    if v is not None and t[0] == 'int':
+                                        self._gc[name] = ('const', t, int(v))
+                                    elif v is not None and t[0] == 'float':
+                                        self._gc[name] = ('const', t, repr(float(v)))
                             stack.extend(v for v in x.values() if isinstance(v, (dict, list)))
                         elif isinstance(x, list):
                             stack.extend(x)
@@ -796,6 +812,31 @@ class AstUnit:
 # ----------------------------------------------------------------------------------------
 EIGEN_PASS = {'array', 'matrix', 'eval', 'derived', 'const_cast_derived', 'noalias'}
 CMP_OPS = {'<', '>', '<=', '>=', '==', '!='}
+
+
+def const_fold_node(n):
+    """numeric value of a clang constant-expression node made of literals and + - * / (None otherwise)"""
+    k = n.get('kind')
+    inn = [c for c in n.get('inner', []) if isinstance(c, dict)]
+    if k in ('ImplicitCastExpr', 'ConstantExpr', 'ParenExpr', 'CStyleCastExpr', 'CXXStaticCastExpr') and inn:
+        return const_fold_node(inn[0])
+    if k == 'IntegerLiteral':
+        return int(n['value'])
+    if k == 'FloatingLiteral':
+        return float(n['value'])
+    if k == 'UnaryOperator' and n.get('opcode') == '-' and inn:
+        v = const_fold_node(inn[0])
+        return None if v is None else -v
+    if k == 'BinaryOperator' and len(inn) == 2:
+        a, b = const_fold_node(inn[0]), const_fold_node(inn[1])
+        if a is None or b is None:
+            return None
+        op = n.get('opcode')
+        if op == '+': return a + b
+        if op == '-': return a - b
+        if op == '*': return a * b
+        if op == '/': return a / b if isinstance(a, float) or isinstance(b, float) else None
+    return None
 
 
 def const_eval(e):
@@ -992,7 +1033,13 @@ class FnTranslator:
                 if qual is None:
                     self.err(e, 'constructor of unknown record %s' % t[1])
                 cls = template_parts(qual)[0].split('::')[-1]
-                u2, p2, n2 = self.prog.find(qual, cls, nparams=len(args))
+                ctq = e.get('ctorType', {}).get('qualType')
+                try:
+                    u2, p2, n2 = self.prog.find(qual, cls, nparams=len(args))
+                except ExtractError:
+                    if not ctq:
+                        raise
+                    u2, p2, n2 = self.prog.find(qual, cls, sig=ctq, nparams=len(args))
                 target = self.prog.resolve_call(self, n2['id'], cls, None, e)
                 ctor, _ret, pkinds, _rr = target
                 self.calls.add(ctor)
@@ -1007,6 +1054,9 @@ class FnTranslator:
                         ('assign', ('field', lv, 'head', ('int', 64, False)), ('const', ('int', 64, False), 0))]
             if t[0] == 'atomic' and len(args) == 1:
                 return [('assign', lv, self.expr(args[0]))]
+            if t[0] == 'vector' and len(args) >= 1 and is_scalar(self.T(args[0])) and t[1][0] == 'vector':
+                self.rule('std::vector<std::vector<T>>(n): n empty inner vectors (model call stdvec_*_resize)')
+                return [('expr', ('call', 'stdvec_%s_resize' % type_tag(t[1]), [('addr', lv, ('ptr', t)), self.expr(args[0])], ('void',)))]
             if t[0] in ('vector', 'list', 'map'):
                 if not args:
                     self.rule('std::vector/list/map: default construction = empty')
@@ -1172,6 +1222,8 @@ class FnTranslator:
             return self.stable_lv(lv[1])
         if k == 'vindex':
             return self.stable_lv(lv[1]) and lv[2][0] == 'const'
+        if k == 'elemx':
+            return False
         if k == 'deref':
             return lv[1][0] == 'var'
         if k == 'addr':
@@ -1211,6 +1263,27 @@ class FnTranslator:
         if k == 'CXXOperatorCallExpr':
             op = self.opname(n0)
             args = self.inner(n0)[1:]
+            if op == '=' and self.T(args[0])[0] != 'eig' and self.is_eigen_node(args[0]):
+                lhs = self.eig(args[0])
+                if lhs.lv is None and hasattr(lhs, 'sub'):
+                    ev = self.eig(args[1])
+                    base, idxs = lhs.sub
+                    if ev.rows * ev.cols != len(idxs):
+                        self.err(n0, 'block assignment shape')
+                    vals = [ev.get(k // ev.cols, k % ev.cols) for k in range(len(idxs))]
+                    out = []
+                    names = []
+                    for v in vals:
+                        nm = self.tmp(lhs.st); names.append(nm)
+                        out.append(('decl', nm, lhs.st, v))
+                    for k, nm in zip(idxs, names):
+                        out.append(('assign', ('elem', base, k, lhs.st), ('var', nm, lhs.st)))
+                    self.rule('eigen: assignment to a fixed block/col/row through temporaries')
+                    return self.flush() + out
+                if lhs.lv is None:
+                    self.err(n0, 'assignment to a temporary Eigen expression')
+                ev = self.eig(args[1])
+                return self.flush() + self.eig_store(lhs.lv, ('eig', lhs.st, lhs.rows, lhs.cols), ev)
             if op == '=':
                 lt = self.T(args[0])
                 if lt[0] == 'eig':
@@ -1244,6 +1317,24 @@ class FnTranslator:
                 return self.flush() + self.eig_store(self.lvalue(self.strip(args[0])), lt, ev)
             if op == '<<':
                 return self.comma_init(n0)
+        if k == 'CXXMemberCallExpr':
+            me = self.callee_decl(n0)
+            if me.get('kind') == 'MemberExpr' and me.get('name') in ('setConstant', 'setZero', 'setOnes', 'setIdentity', 'fill') and self.is_eigen_node(self.inner(me)[0]):
+                tgt = self.eig(self.inner(me)[0])
+                margs = self.inner(n0)[1:]
+                nm = me['name']
+                if nm in ('setConstant', 'fill'):
+                    v = self.expr(margs[0])
+                    if v[-1] != tgt.st:
+                        v = ('cast', v, v[-1], tgt.st)
+                    ev = EigVal(tgt.st, tgt.rows, tgt.cols, lambda i, j: v)
+                elif nm == 'setIdentity':
+                    ev = EigVal(tgt.st, tgt.rows, tgt.cols, lambda i, j: ('const', tgt.st, 1 if i == j else 0))
+                else:
+                    c = 0 if nm == 'setZero' else 1
+                    ev = EigVal(tgt.st, tgt.rows, tgt.cols, lambda i, j: ('const', tgt.st, c))
+                self.rule('eigen: %s()' % nm)
+                return self.flush() + self.eig_store(tgt.lv, ('eig', tgt.st, tgt.rows, tgt.cols), ev)
         if k in ('CallExpr', 'CXXMemberCallExpr', 'CXXOperatorCallExpr'):
             e = self.expr(n0, want_value=False)
             pre = self.flush()
@@ -1378,6 +1469,9 @@ class FnTranslator:
                     return lv[1]
                 return ('addr', lv, ('ptr', t))
             except ExtractError:
+                if t[0] == 'struct':
+                    v = self.aggregate_value(a0, t)
+                    return ('addr', v, ('ptr', t))
                 if t[0] != 'eig':
                     raise
                 ev = self.eig(a0)
@@ -1492,6 +1586,9 @@ class FnTranslator:
                 ev = self.eig(args[0])
                 if ev.lv is None:
                     self.err(n, 'coefficient reference into a temporary')
+                if len(args) == 2 and self.const_int(args[1]) is None and (ev.cols == 1 or ev.rows == 1):
+                    self.rule('eigen: coefficient access with a run-time index (bounds checked)')
+                    return ('elemx', ev.lv, self.expr(args[1]), ev.st)
                 idx = [self.const_index(a) for a in args[1:]]
                 if len(idx) == 1:
                     kk = idx[0]
@@ -1753,6 +1850,16 @@ class FnTranslator:
             self.pre.append(('decl', nm, t, None))
             self.pre += self.eig_store(('var', nm, t), t, ev)
             return ('var', nm, t)
+        if n0['kind'] in ('CallExpr', 'CXXMemberCallExpr', 'CXXOperatorCallExpr') and t[0] == 'struct':
+            e = self.expr(n0)
+            if e[0] == 'call' and e[-1] == t:
+                nm = self.tmp(t)
+                self.pre.append(('decl', nm, t, e))
+                self.rule('struct returned by a call: held in a temporary')
+                return ('var', nm, t)
+            if e[0] == 'call' and e[-1][0] == 'ptr':
+                return ('deref', e, t)
+            return e
         return self.lvalue(n0)
 
     def struct_value(self, n):
@@ -1769,6 +1876,9 @@ class FnTranslator:
         a0t = self.T(args[0])
         if op in ('[]', '()') and (self.is_eigen_node(args[0])):
             ev = self.eig(args[0])
+            if len(args) == 2 and self.const_int(args[1]) is None and ev.lv is not None and (ev.cols == 1 or ev.rows == 1):
+                self.rule('eigen: coefficient access with a run-time index (bounds checked)')
+                return ('elemx', ev.lv, self.expr(args[1]), ev.st)
             idx = [self.const_index(a) for a in args[1:]]
             self.rule('eigen: coefficient access operator[]/() with constant index')
             if len(idx) == 1:
@@ -2081,6 +2191,11 @@ class FnTranslator:
         if k == 'CXXOperatorCallExpr':
             op = self.opname(n)
             args = self.inner(n)[1:]
+            if op in ('+', '-') and len(args) == 2 and not (self.is_eigen_node(args[1]) or self.T(args[1])[0] == 'eig'):
+                a = self.eig(args[0]); sc = self.expr(args[1])
+                self.rule('eigen: array %s scalar' % op)
+                r = EigVal(a.st, a.rows, a.cols, lambda i, j: ('bin', op, a.get(i, j), sc, a.st)); r.is_array = True
+                return r
             if op in ('+', '-') and len(args) == 2:
                 a, b = self.eig(args[0]), self.eig(args[1])
                 self.rule('eigen: coefficient-wise %s' % op)
@@ -2162,6 +2277,16 @@ class FnTranslator:
                     return EigVal(t[1], R, C, lambda i, j: ('const', t[1], 1 if i == j else 0))
                 c = 0 if name == 'Zero' else 1
                 return EigVal(t[1], R, C, lambda i, j: ('const', t[1], c))
+            if name in ('floor', 'ceil', 'abs', 'sqrt', 'square') and len(args) == 1 and self.is_eigen_node(args[0]):
+                a = self.eig(args[0])
+                self.rule('eigen: coefficient-wise free function ' + name)
+                if name == 'square':
+                    r = EigVal(a.st, a.rows, a.cols, lambda i, j: ('bin', '*', a.get(i, j), a.get(i, j), a.st))
+                else:
+                    fn = 'fabs' if name == 'abs' and a.st[0] == 'float' else name
+                    r = EigVal(a.st, a.rows, a.cols, lambda i, j: ('call', fn, [a.get(i, j)], a.st))
+                r.is_array = True
+                return r
             e = self.expr(n)
             if e[0] == 'call' and e[-1][0] == 'ptr':
                 return self.eig_of_lv(('deref', e, e[-1][1]), e[-1][1])
@@ -2182,6 +2307,28 @@ class FnTranslator:
         return EigVal(t[1], t[2], t[3], lambda i, j: ('elem', lv, i * C + j, t[1]), lv=lv)
 
     def eig_method(self, n, name, obj, args, t):
+        if name == 'finished':
+            # (Matrix() << a, b, c, d).finished()
+            items = []
+
+            def flat(x):
+                x = self.strip(x)
+                if x['kind'] == 'CXXOperatorCallExpr' and self.opname(x) == ',':
+                    aa = self.inner(x)[1:]
+                    flat(aa[0]); items.append(aa[1])
+                elif x['kind'] == 'CXXOperatorCallExpr' and self.opname(x) == '<<':
+                    aa = self.inner(x)[1:]
+                    items.append(aa[1])
+                else:
+                    self.err(x, 'comma initialiser shape')
+            flat(obj)
+            if t[0] != 'eig':
+                t = self.shape_from_str(node_type(n), n)
+            vals = [self.expr(v) for v in items]
+            if len(vals) != t[2] * t[3]:
+                self.err(n, 'comma initialiser arity')
+            self.rule('eigen: comma initialiser expanded row-major')
+            return EigVal(t[1], t[2], t[3], lambda i, j: vals[i * t[3] + j])
         a = self.eig(obj)
         if name in EIGEN_PASS:
             r = EigVal(a.st, a.rows, a.cols, a.get, lv=a.lv)
